@@ -105,8 +105,11 @@ class LineIterator:
 
     def __next__(self):
         """Return the next line and increase the lineno attribute by one."""
+        # Increase the line number only when a line was obtained, such that it
+        # remains the number of the last line read when the end of the file is reached.
+        line = self.stack.pop() if self.stack else next(self.fh)
         self.lineno += 1
-        return self.stack.pop() if self.stack else next(self.fh)
+        return line
 
     def back(self, line):
         """Go back one line in the file and decrease the lineno attribute by one."""
